@@ -1,7 +1,8 @@
 (* C09 - ACL decisions are first-match and independent of lookup history.
    Property theorems only; every proof is `exact <lemma>` from proof/C09_ACL.v. *)
 From Hy Require Import model.C09_ACL proof.C09_ACL model.C09_Conc proof.C09_Conc.
-From Coq Require Import ZArith.
+From Hy Require Import model.C09_IPString proof.C09_IPString proof.C09_CIDR model.C09_Text proof.C09_Text.
+From Coq Require Import ZArith Sorting.Sorted.
 Local Open Scope N_scope.
 
 (* First match: for every rule list and query, either some rule matches and the answer is the outbound
@@ -153,3 +154,187 @@ Theorem C09_port_any_old_refuted :
               rule_match_old r h ProtocolTCP 443 = true /\ rule_match r h ProtocolTCP 443 = false.
 Proof. exact port_any_old_refuted. Qed.
 Print Assumptions C09_port_any_old_refuted.
+
+(* ================= net.IP.String: the rendering inside the cache key, modelled and its two properties proved ================= *)
+
+(* The modelled rendering ("<nil>", "?" ++ hex, dotted decimal, RFC 5952 text) never contains '|'. *)
+Theorem C09_ip_string_nobar : forall a, ~ In "|"%byte (ip_string a).
+Proof. exact ip_string_nobar. Qed.
+Print Assumptions C09_ip_string_nobar.
+
+(* It determines the address up to To4 normalisation: a decoder recovers canon a from the text, for byte
+   strings of EVERY length (nil, 4, 16, anything else). *)
+Theorem C09_ip_string_decodes : forall a, ip_unstring (ip_string a) = canon a.
+Proof. exact ip_unstring_string. Qed.
+Print Assumptions C09_ip_string_decodes.
+
+Theorem C09_ip_string_injective : forall a b, ip_string a = ip_string b -> canon a = canon b.
+Proof. exact ip_string_inj. Qed.
+Print Assumptions C09_ip_string_injective.
+
+(* "::" stands for the leftmost longest run of at least two zero groups; no such run, no compression. *)
+Theorem C09_ip_string_zero_run : forall g,
+  match best_run g 0 None with
+  | Some (bs, be) =>
+      (2 <= be - bs)%nat /\ zero_range g bs be /\
+      (forall s e, zero_range g s e -> (e - s <= be - bs)%nat) /\
+      (forall s e, (s < bs)%nat -> zero_range g s e -> (e - s < be - bs)%nat)
+  | None => forall s e, zero_range g s e -> (e - s < 2)%nat
+  end.
+Proof. exact best_run_spec. Qed.
+Print Assumptions C09_ip_string_zero_run.
+
+(* The cache theorems for the modelled rendering: no hypothesis left. *)
+Theorem C09_key_injective_rendered : forall rs q1 q2,
+  mk_key ip_string q1 = mk_key ip_string q2 -> fresh rs q1 = fresh rs q2.
+Proof. exact (key_injective ip_string ip_string_nobar ip_string_inj). Qed.
+Print Assumptions C09_key_injective_rendered.
+
+Theorem C09_cache_invisible_rendered : forall (pol : nat -> cache -> list key) rs qs,
+  run ip_string pol rs qs = map (fresh rs) qs.
+Proof. exact (cache_invisible ip_string ip_string_nobar ip_string_inj). Qed.
+Print Assumptions C09_cache_invisible_rendered.
+
+Theorem C09_cache_invisible_concurrent_rendered : forall rs (os : list cop),
+  Forall (fun x => snd x = fresh rs (fst x)) (cop_hits ip_string rs [] os).
+Proof. exact (cache_invisible_concurrent ip_string ip_string_nobar ip_string_inj). Qed.
+Print Assumptions C09_cache_invisible_concurrent_rendered.
+
+Theorem C09_concurrent_lookups_rendered : forall (pol : cache -> list key) rs (es : list cev) q r,
+  In (Some (q, r)) (answers (snd (conc_run ip_string pol rs es))) -> r = fresh rs q.
+Proof. exact (conc_answers_fresh ip_string ip_string_nobar ip_string_inj). Qed.
+Print Assumptions C09_concurrent_lookups_rendered.
+
+(* ================= CIDR rules: the declarative reading ================= *)
+
+(* IPv4 network a.b.c.d/n: an address slot x matches iff it has a 4-byte form (4 bytes, or 16 bytes v4-mapped) whose
+   first n bits are the first n bits of a.b.c.d. *)
+Theorem C09_cidr_v4 : forall a n x, length a = 4%nat -> n <= 32 ->
+  ipnet_contains (ip_mask (v4in6_prefix ++ a) (cidr_mask n 32)) (cidr_mask n 32) x = true <-> in_net4 a n x.
+Proof. exact cidr_v4. Qed.
+Print Assumptions C09_cidr_v4.
+
+(* IPv6 network a/n: x matches iff it is 16 bytes, NOT v4-mapped, and agrees with a on the first n bits; except that
+   a v4-mapped network text with n >= 96 is the IPv4 network of its last four bytes with prefix n - 96. *)
+Theorem C09_cidr_v6 : forall a n x, length a = 16%nat -> n <= 128 ->
+  ipnet_contains (ip_mask a (cidr_mask n 128)) (cidr_mask n 128) x = true <->
+  if (96 <=? n) && is_mapped a then in_net4 (skipn 12 a) (n - 96) x else in_net6 a n x.
+Proof. exact cidr_v6. Qed.
+Print Assumptions C09_cidr_v6.
+
+(* n = 0: the whole family (and nothing of the other); n = 32 / 128: exactly that address; bits of the written
+   network address beyond the prefix are irrelevant. *)
+Theorem C09_cidr_edges : forall a x,
+  (in_net4 a 0 x <-> exists y, to4 x = Some y) /\
+  (in_net6 a 0 x <-> length x = 16%nat /\ to4 x = None) /\
+  (length a = 4%nat -> (in_net4 a 32 x <-> to4 x = Some a)) /\
+  (length a = 16%nat -> (in_net6 a 128 x <-> x = a /\ to4 a = None)) /\
+  (forall n a', prefix_eq n a a' -> (in_net4 a n x <-> in_net4 a' n x) /\ (in_net6 a n x <-> in_net6 a' n x)).
+Proof. exact cidr_edges. Qed.
+Print Assumptions C09_cidr_edges.
+
+(* The text level: a rule address that compiles to a CIDR matcher is "addr/n" with addr an IP text and n a decimal
+   number not above the address size, and the matcher means the above. *)
+Theorem C09_cidr_rule : forall addr nip mk,
+  compile_host_matcher addr = Ok (MCIDR nip mk) ->
+  exists ta tn r n,
+    cut "/"%byte (norm_name addr) = Some (ta, tn) /\ parse_addr ta = Some r /\ parse_dec tn = Some n /\
+    ((fst r = true /\ n <= 32 /\ length (snd r) = 4%nat /\
+      forall x, ipnet_contains nip mk x = true <-> in_net4 (snd r) n x)
+     \/
+     (fst r = false /\ n <= 128 /\ length (snd r) = 16%nat /\
+      forall x, ipnet_contains nip mk x = true <->
+                if (96 <=? n) && is_mapped (snd r) then in_net4 (skipn 12 (snd r)) (n - 96) x else in_net6 (snd r) n x)).
+Proof. exact cidr_rule. Qed.
+Print Assumptions C09_cidr_rule.
+
+(* n above the address size: no matcher (Compile fails, the file is rejected). *)
+Theorem C09_cidr_too_long : forall s ta tn r n,
+  cut "/"%byte s = Some (ta, tn) -> parse_addr ta = Some r -> parse_dec tn = Some n ->
+  (if fst r then 32 else 128) < n -> parse_cidr s = None.
+Proof. exact parse_cidr_too_long. Qed.
+Print Assumptions C09_cidr_too_long.
+
+(* ================= rule FILES: ParseTextRules ================= *)
+
+(* The hand-written line parser accepts exactly the language of
+   ^(\w+)\s*\(([^,]+)(?:,([^,]+))?(?:,([^,]+))?\)$ and returns the same submatches (trimmed). *)
+Theorem C09_line_grammar : forall l t, parse_line l = Some t <-> line_lang l t.
+Proof. exact parse_line_lang. Qed.
+Print Assumptions C09_line_grammar.
+
+Theorem C09_line_rejects : forall l, parse_line l = None <-> ~ exists t, line_lang l t.
+Proof. exact parse_line_rejects. Qed.
+Print Assumptions C09_line_rejects.
+
+(* Every record the parser returns has a word as outbound and comma-free, trimmed fields; printing it canonically
+   and parsing the print returns it. *)
+Theorem C09_line_round_trip : forall l t, parse_line l = Some t -> wf_trule t /\ parse_line (print_rule t) = Some t.
+Proof. exact line_round_trip_wf. Qed.
+Print Assumptions C09_line_round_trip.
+
+Theorem C09_print_parse : forall t, wf_trule t -> parse_line (print_rule t) = Some t.
+Proof. exact print_parse. Qed.
+Print Assumptions C09_print_parse.
+
+(* Comments: everything from the first '#' is ignored; a line of white space and/or a comment is blank; a blank
+   line can be removed or inserted anywhere without changing the rules or their order. *)
+Theorem C09_comments_and_blanks :
+  (forall l c, has_byte hash l = false -> clean_line (l ++ hash :: c) = clean_line l) /\
+  (forall sp c, forallb is_space sp = true -> clean_line (sp ++ hash :: c) = [] /\ clean_line sp = []) /\
+  (forall pre l post b, nonempty (clean_line l) = false ->
+     rules_only (parse_lines (pre ++ l :: post) b) = rules_only (parse_lines (pre ++ post) b)).
+Proof. exact (conj comment_ignored (conj comment_line_blank blank_line_ignored)). Qed.
+Print Assumptions C09_comments_and_blanks.
+
+(* ParseTextRules returns exactly the rule lines, in increasing line order, when every line is blank or a rule ... *)
+Theorem C09_file_rules : forall text lrs, parse_text text = PRules lrs ->
+  (forall n t, In (n, t) lrs <-> file_rule text n t) /\ StronglySorted lnum_lt lrs /\
+  Forall line_ok (split_on newline text).
+Proof. exact file_rules. Qed.
+Print Assumptions C09_file_rules.
+
+(* ... and otherwise the number and the cleaned text of the FIRST offending line. *)
+Theorem C09_file_error : forall text n c, parse_text text = PSyntax n c ->
+  exists i l, n = (1 + i)%nat /\ nth_error (split_on newline text) i = Some l /\ c = clean_line l /\ nonempty c = true /\
+              parse_line c = None /\ Forall line_ok (firstn i (split_on newline text)).
+Proof. exact file_error. Qed.
+Print Assumptions C09_file_error.
+
+Theorem C09_file_total : forall text, Forall line_ok (split_on newline text) -> exists lrs, parse_text text = PRules lrs.
+Proof. exact file_total. Qed.
+Print Assumptions C09_file_total.
+
+Theorem C09_file_round_trip : forall text lrs, parse_text text = PRules lrs ->
+  parse_text (print_file (map snd lrs)) = PRules (combine (seq 1 (length lrs)) (map snd lrs)).
+Proof. exact file_round_trip. Qed.
+Print Assumptions C09_file_round_trip.
+
+(* Compile (ParseTextRules text) keeps file order. *)
+Theorem C09_file_order : forall obs text csize rs, compile_text obs text csize = Ok rs ->
+  exists lrs, parse_text text = PRules lrs /\
+              (forall n t, In (n, t) lrs <-> file_rule text n t) /\ StronglySorted lnum_lt lrs /\
+              Forall2 (fun lt r => compile_rule obs (snd lt) = Ok r) lrs rs.
+Proof. exact compile_text_order. Qed.
+Print Assumptions C09_file_order.
+
+(* First match on the TEXT of a rule file: the answer is the outbound and hijack address of the rule on the
+   smallest-numbered line whose compiled rule matches the (normalised) query; no such line, no decision. *)
+Theorem C09_file_first_match : forall obs text csize rs q,
+  compile_text obs text csize = Ok rs ->
+  let h := norm_host (q_host q) in
+  (exists n t r,
+      file_rule text n t /\ compile_rule obs t = Ok r /\ rule_match r h (q_proto q) (q_port q) = true /\
+      (forall n' t' r', (n' < n)%nat -> file_rule text n' t' -> compile_rule obs t' = Ok r' ->
+                        rule_match r' h (q_proto q) (q_port q) = false) /\
+      fresh rs q = (Some (r_ob r), r_hijack r))
+  \/ ((forall n t r, file_rule text n t -> compile_rule obs t = Ok r -> rule_match r h (q_proto q) (q_port q) = false) /\
+      fresh rs q = (None, [])).
+Proof. exact file_first_match. Qed.
+Print Assumptions C09_file_first_match.
+
+(* One bad line rejects the whole file. *)
+Theorem C09_file_rejects : forall obs text csize,
+  (exists n l, nth_error (split_on newline text) n = Some l /\ ~ line_ok l) -> compile_text obs text csize = Err EInvalid.
+Proof. exact compile_text_rejects. Qed.
+Print Assumptions C09_file_rejects.
